@@ -1,6 +1,9 @@
 import ESV.Decomp.SemE
 import ESV.Decomp.GraphFinal
 import ESV.Decomp.GraphOkEdge
+import ESV.Decomp.OptFinal
+import ESV.Decomp.OptCounter
+import ESV.Props.DecompFront
 /-
 `optimize_paths`, the first rewriting phase of the decompiler, and the bridge from the base-graph theorem to the
 edge-based reading of graphs the rewriting phases are stated over.  Statements only.
@@ -19,5 +22,27 @@ theorem edge_reading_agrees (labels : List Lbl) (opt : Bool) (rid : Nat) (items 
     (hg : baseGraph labels opt rid items = .ok g) (hguard : ctxGuard items = true) :
     Equivalent g.lts g.ltsE (0 : Nat) (0 : Nat) :=
   baseGraph_edge_reading labels opt rid items g hg hguard
+
+/-- **`optimize_paths` preserves behaviour**: removing a label that is only followed by a Jump to another label,
+together with that Jump, and redirecting its in-edges, does not change what the routine does - for every graph
+with the structure of a base graph and without a cycle of labels and Jumps only (`noSilentCycle`: the quantifier of
+C02/C06 excludes cycles of Jump ops; shown necessary by ESV.Decomp.optimize_silent_cycle_counterexample, where the
+phase turns a divergence into running off the end). -/
+theorem optimizePaths_preserves (labels : List Lbl) (g g' : Graph) (hok : graphOk g = true)
+    (hns : noSilentCycle g = true) (h : optimizePaths labels g = .ok g') :
+    Equivalent g.ltsE g'.ltsE (0 : Nat) (0 : Nat) :=
+  ESV.Decomp.Opt.optimizePaths_preserves' labels g g' hok hns h
+
+/-- **The modelled front of the decompiler, end to end** (one routine in isolation): the graph that leaves
+`optimize_paths` behaves like the routine's item list the resolver produced - for every routine that satisfies
+the guards, whenever both phases answer. -/
+theorem front_phases_preserve (labels : List Lbl) (opt : Bool) (rid : Nat) (items : List Item) (g g' : Graph)
+    (hg : baseGraph labels opt rid items = .ok g) (hguard : ctxGuard items = true)
+    (hnames : namesGuard items = true) (hns : noSilentCycle g = true)
+    (ho : optimizePaths labels g = .ok g') :
+    Equivalent (RMachine.lts ⟨labels, rid, items⟩) g'.ltsE (0 : Nat) (0 : Nat) :=
+  Equivalent.trans (Equivalent.trans (baseGraph_preserves labels opt rid items g hg hguard hnames)
+    (edge_reading_agrees labels opt rid items g hg hguard))
+    (optimizePaths_preserves labels g g' (baseGraph_ok labels opt rid items g hg) hns ho)
 
 end ESV.DecompFront
